@@ -1,12 +1,14 @@
 #!/bin/sh
 # usage: tools/seedtest.sh <patch.diff> <check id> [tier]
-# Applies a seeded change to /repo, runs the check, and undoes the change.
+# Applies a seeded change to /repo (which must be clean), runs the check, and restores /repo.
 patch="$1"; id="$2"; tier="${3:-quick}"
 cd /verif
+if ! git -C /repo diff --quiet; then echo "refusing: /repo has uncommitted changes"; exit 3; fi
 git -C /repo apply "$patch" || { echo "patch does not apply"; exit 3; }
 ./check "$id" "$tier" > /tmp/seedtest.out 2> /tmp/seedtest.err
 rc=$?
-git -C /repo apply -R "$patch"
+git -C /repo checkout -- .
+git -C /repo diff --quiet || echo "WARNING: /repo not clean after restore"
 grep -E "^VIOLATION|^KNOWN" /tmp/seedtest.out
 grep -E "violated:|INCONCLUSIVE|inconclusive|vacuous|ENCODING|discharged on" /tmp/seedtest.err | head -12
 echo "exit=$rc"
